@@ -868,6 +868,15 @@ def gen_flag_case(rng):
     r = rng.random()
     if r < 0.15:
         case['own_prefix'] = 'cs' if r < 0.10 else 's' if r < 0.14 else 'none'
+    if 'own_prefix' in case:
+        # outside the abstraction (a chunk info = its flags array): a candidate whose chain reaches the opened stream and
+        # whose own info is not the most specific one picks up the prefix-less info of the opened stream, ALL arrays of
+        # which would then take the candidate's chunk name
+        reach = set()
+        for c in cands:
+            if c.get('inherit') == 'sdp_l0' or c.get('inherit') in reach:
+                reach.add(c['name'])
+                c.pop('info_at', None)
     for c in cands:
         if c.get('info_at', 'cs') != 'none' and rng.random() < 0.3:
             opts = ['cs', 'cs', 's'] + (['p', 'cp'] if str(c.get('inherit', '')).startswith('par') else []) \
